@@ -16,7 +16,7 @@ def main():
         print(f'== {c.name}: {len(r.obligations)} obligation instances, {r.n_paths} paths, gen {time.time()-t:.2f}s', 'UNSUPPORTED ' + r.unsupported if r.unsupported else '')
         qs = D.prepare(r.obligations, shifts_for=D.shifts_by_name(c.shifts))
         cq = D.prepare(r.canaries)
-        t = time.time(); D.run_queries(qs + cq, timeout_ms=tmo)
+        t = time.time(); D.run_queries(qs + cq, timeout_ms=tmo, jobs=int(os.environ.get("JOBS","16")))
         bad = [q for q in qs if q.verdict != 'unsat']
         for q in sorted(qs, key=lambda q: -q.secs)[:3]:
             if q.secs > 1: print(f'   slow: {q.ob_name} atom{q.atom} {q.stage} {q.secs:.1f}s {q.goal_str[:100]!r}')
